@@ -132,6 +132,14 @@ Settings(c, m) ==
     /\ freshLo' = [freshLo EXCEPT ![c] = {}]
     /\ UNCHANGED <<strict, dev, cst, lastId, open, cend, send, fresh, pr, blocked, dnr, ga, resv, doomed, own, req>>
 
+(* a SETTINGS frame without SETTINGS_MAX_CONCURRENT_STREAMS (empty, or other settings only):   *)
+(* RFC 9113 6.5 - a setting keeps its value until a SETTINGS frame changes it; only its absence  *)
+(* from the connection's first SETTINGS frame means "default".                                   *)
+SettingsOther(c) ==
+    /\ c \in Conns /\ cst[c] = "up"
+    /\ freshLo' = [freshLo EXCEPT ![c] = {}]
+    /\ UNCHANGED <<strict, dev, cst, lastId, open, cend, send, fresh, pr, blocked, dnr, maxc, ga, resv, lowm, doomed, own, req>>
+
 SawStreamFrame(c, hd) ==       \* bookkeeping common to HEADERS/DATA (hd) and RST_STREAM from the server
     /\ fresh' = [fresh EXCEPT ![c] = {}] /\ freshLo' = [freshLo EXCEPT ![c] = {}]
     /\ blocked' = [blocked EXCEPT ![c] = IF hd THEN FALSE ELSE @]
@@ -339,6 +347,7 @@ EnvStep ==
     \/ On("cancel") /\ \E r \in Reqs : Cancel(r) /\ req[r].st # "done"
     \/ On("closebody") /\ \E r \in Reqs : CloseBody(r) /\ req[r].c \in Conns /\ req[r].s \in open[req[r].c]
     \/ On("settings") /\ \E c \in Conns, m \in MCMax : Settings(c, m) /\ m # maxc[c]
+    \/ On("settings_other") /\ \E c \in Conns : SettingsOther(c) /\ freshLo[c] # {}
     \/ \E c \in Conns : \E s \in open[c] \ send[c] : \E es \in (IF On("closebody") THEN BOOLEAN ELSE {TRUE}) :
           Resp(c, s, es) /\ InFlight(OwnerOf(c, s), c, s)
     \/ \E c \in Conns : \E s \in open[c] \ send[c] : SData(c, s, TRUE) /\ ~InFlight(OwnerOf(c, s), c, s)
